@@ -46,7 +46,15 @@ def run_batch(arg):
         try:
             f = periodictable.formula(s, table=tabs[T])
         except Exception as e:
-            out.append({"exc": type(e).__name__})
+            # a refused string is refused again: the answer does not depend on what was asked before
+            r = {"exc": type(e).__name__}
+            try:
+                g = periodictable.formula(s, table=tabs[T])
+                r["again"] = "accepted"
+                r["str"] = str(g)
+            except Exception:
+                r["again"] = "exc"
+            out.append(r)
             continue
         if not isinstance(f, periodictable.formulas.Formula):
             out.append({"exc": "NotAFormula"})
